@@ -4,7 +4,7 @@ import os
 import z3
 from pyvc import sym as S
 from pyvc.api import Contract, register, QUOTES
-from pyvc.absx import AbsColl, Seg, LoopSpec, seq_eq
+from pyvc.absx import AbsColl, Seg, LoopSpec, seq_eq, add_fact
 from spec import render as R
 from spec import schemas as SC
 
@@ -347,6 +347,8 @@ class FormatValue(Contract):
                 E.assume(S.eq(S.strip(s), s))
                 if kind == "str":
                     E.assume(R.conforms(None, props, s))
+                else:
+                    E.assume(R.item_conforms(props, s))
         return (mk_pp(E, qc), attr, props, v), {}
 
     def ensures(self, E, case, args, kwargs, out):
@@ -403,3 +405,672 @@ def _list_ok(facts, attr, vs, q, res):
                 conds.append(R.string_text_ok(item_facts, attr, x, q, t))
         alts.append(S.and_(*conds))
     return S.or_(*alts)
+
+
+# ---------------------------------------------------------------------------------------------
+# modular view of format_value / get_attribute_properties for the line writers
+# ---------------------------------------------------------------------------------------------
+
+_FVT = {
+    S.STR: z3.Function("fv_text_s", z3.StringSort(), z3.StringSort(), z3.StringSort(), z3.StringSort()),
+    S.INT: z3.Function("fv_text_i", z3.StringSort(), z3.StringSort(), z3.IntSort(), z3.StringSort()),
+    S.REAL: z3.Function("fv_text_r", z3.StringSort(), z3.StringSort(), z3.RealSort(), z3.StringSort()),
+    S.BOOL: z3.Function("fv_text_b", z3.StringSort(), z3.StringSort(), z3.BoolSort(), z3.StringSort()),
+}
+
+
+class AbsProps:
+    """the schema node of (type_, attr) for symbolic type_/attr: only passed on to format_value"""
+    def __init__(self, type_, attr):
+        self.type_ = type_
+        self.attr = attr
+
+
+def fv_text(E, type_, attr, value):
+    """text of format_value(attr, props(type_, attr), value) as an uninterpreted function of its inputs
+    (what it is exactly is the business of the FormatValue contract)"""
+    so = S.sort_of(value)
+    if so is None:
+        r = E.fresh(S.STR, "fvtext")
+        return r
+    if not E.symbolic:
+        raise RuntimeError("fv_text is proof-only")
+    return S.Sym(S.STR, _FVT[so](S.term(type_), S.term(attr), S.term(value)))
+
+
+FormatValue.at_call = lambda self, E, pp, attr, attr_props, value: (
+    fv_text(E, attr_props.type_, attr, value) if isinstance(attr_props, AbsProps)
+    else (_ for _ in ()).throw(NotImplementedError("format_value is inlined for concrete schema nodes")))
+
+
+@register
+class GetAttributeProperties(Contract):
+    """returns the schema node of the keyword as expanded by the validator ({} for an unknown keyword)"""
+    target = "mappyfile.pprint.PrettyPrinter.get_attribute_properties"
+    props = ("C03", "C19")
+    modifies = ()
+
+    @property
+    def cases(self):
+        slots = SC.value_slots()
+        if TIER != "thorough":
+            slots = SC.one_per_shape(slots)
+        return [f"{t}.{a}" for (t, a) in slots] + ["map.zz_unknown"]
+
+    def build(self, E, case):
+        t, a = case.split(".")
+        return (mk_pp(E), t, a), {}
+
+    def ensures(self, E, case, args, kwargs, out):
+        t, a = case.split(".")
+        ok = out.kind == "return"
+        yield "returns", ok
+        if ok:
+            want = SC.expanded(t)["properties"].get(a, {})
+            yield "is-schema-node", SC.plain(out.value) == want
+
+    def at_call(self, E, pp, type_, attr):
+        if S.is_sym(type_) or S.is_sym(attr):
+            return AbsProps(type_, attr)
+        return pp.validator.get_expanded_schema(type_)["properties"].get(attr, {})
+
+
+# FormatValue must accept jsonref-expanded nodes; when attr_props is concrete the body is inlined
+_fv_orig_at_call = FormatValue.at_call
+
+
+@register
+class ProcessAttribute(Contract):
+    target = "mappyfile.pprint.PrettyPrinter.process_attribute"
+    cases = ["str", "int", "real", "bool", "default-amax"]
+    props = ("C16", "C03")
+    modifies = ()
+    doc = "ws(level+1) ++ KEY ++ pad ++ format_value(...); symbolic type_, attr, level, column"
+
+    def build(self, E, case):
+        kind = "str" if case == "default-amax" else case
+        v = build_value(E, kind)
+        args = [mk_pp(E), E.str("type_"), E.str("attr"), v, E.int("level")]
+        if case != "default-amax":
+            args.append(E.int("amax"))
+        return tuple(args), {}
+
+    def ensures(self, E, case, args, kwargs, out):
+        pp, type_, attr, v, level = args[:5]
+        amax = args[5] if len(args) > 5 else 1
+        ok = out.kind == "return"
+        yield "returns", ok
+        if ok:
+            yield "line", S.eq(out.value, process_attribute_spec(E, pp, type_, attr, v, level, amax))
+
+    def at_call(self, E, pp, type_, attr, value, level, aligned_max_indent=1):
+        return process_attribute_spec(E, pp, type_, attr, value, level, aligned_max_indent)
+
+
+def process_attribute_spec(E, pp, type_, attr, v, level, amax):
+    return format_line_spec(ws(pp, level + 1), S.upper(attr), fv_text(E, type_, attr, v), amax)
+
+
+# ---------------------------------------------------------------------------------------------
+# comments (C14 printing side)
+# ---------------------------------------------------------------------------------------------
+
+def _comments_dict(E, case, key):
+    """comments dict for the cases: none / str / list1 / list2"""
+    if case == "none":
+        return E.odict(entries=[("zz_other", E.str("c_other"))]), None
+    if case == "str":
+        c = E.str("c0")
+        return E.odict(entries=[(key, c)]), c
+    n = int(case[4:])
+    cs = [E.str(f"c{i}") for i in range(n)]
+    return E.odict(entries=[(key, cs)]), cs
+
+
+def attribute_comment_spec(comments_value):
+    if comments_value is None:
+        return ""
+    if isinstance(comments_value, list):
+        return S.concat(" ", S.join(" ", comments_value))
+    return S.concat(" ", comments_value)
+
+
+def composite_comment_spec(pp, level, comments_value):
+    if comments_value is None:
+        return ""
+    sp = ws(pp, level)
+    if isinstance(comments_value, list):
+        return S.join(pp.newlinechar, [S.concat(sp, c) for c in comments_value])
+    return S.concat(sp, comments_value)
+
+
+@register
+class ProcessAttributeComment(Contract):
+    target = "mappyfile.pprint.PrettyPrinter.process_attribute_comment"
+    cases = ["none", "str", "list1", "list2", "list3"]
+    props = ("C14",)
+    modifies = ()
+    doc = "list lengths 1..3 are shape-bounded cases (the join is over a Python list of that length)"
+
+    def build(self, E, case):
+        key = "akey"
+        d, self_v = _comments_dict(E, case, key)
+        return (mk_pp(E), d, key), {}
+
+    def ensures(self, E, case, args, kwargs, out):
+        pp, d, key = args
+        cv = d[key] if case != "none" else None
+        yield "suffix", out.kind == "return" and S.eq(out.value, attribute_comment_spec(cv))
+
+    def at_call(self, E, pp, comments, key):
+        from pyvc.engine import MDict
+        from pyvc import models
+        if isinstance(comments, MDict) and comments.tail is None:
+            if not E.interp.ctx.branch(models.mdict_contains(E.interp, comments, key)):
+                return ""
+            return attribute_comment_spec(models.mdict_getitem(E.interp, comments, key))
+        if isinstance(comments, AbsComments):
+            return comments.suffix(E, key)
+        raise NotImplementedError
+
+
+class AbsComments:
+    """an arbitrary __comments__ dict: the suffix for a key is an uninterpreted function of the key"""
+    F = z3.Function("comment_suffix", z3.StringSort(), z3.StringSort())
+    T = z3.Function("type_comment_lines", z3.IntSort(), z3.StringSort())
+
+    def __init__(self, ident=0):
+        self.ident = ident
+
+    def suffix(self, E, key):
+        return S.Sym(S.STR, AbsComments.F(S.term(key)))
+
+
+@register
+class ProcessCompositeComment(Contract):
+    target = "mappyfile.pprint.PrettyPrinter.process_composite_comment"
+    cases = ["none", "str", "list1", "list2", "list3"]
+    props = ("C14",)
+    modifies = ()
+
+    def build(self, E, case):
+        d, _ = _comments_dict(E, case, "__type__")
+        return (mk_pp(E), E.int("level"), d, "__type__"), {}
+
+    def ensures(self, E, case, args, kwargs, out):
+        pp, level, d, key = args
+        cv = d[key] if case != "none" else None
+        yield "lines", out.kind == "return" and S.eq(out.value, composite_comment_spec(pp, level, cv))
+
+
+@register
+class AddTypeComment(Contract):
+    target = "mappyfile.pprint.PrettyPrinter._add_type_comment"
+    cases = ["none", "str", "list2"]
+    props = ("C14", "C16")
+    modifies = (3,)
+
+    def build(self, E, case):
+        d, _ = _comments_dict(E, case, "__type__")
+        if case == "str":
+            E.assume(d["__type__"] != "")
+        return (mk_pp(E), E.int("level"), d, [Seg("lines@pre")]), {}
+
+    def ensures(self, E, case, args, kwargs, out):
+        pp, level, d, lines = args
+        ok = out.kind == "return"
+        yield "returns", ok
+        if not ok:
+            return
+        if case == "none":
+            yield "nothing-added", len(lines) == 1
+        else:
+            want = composite_comment_spec(pp, level, d["__type__"])
+            if case == "str":
+                yield "one-entry", len(lines) == 2 and S.eq(lines[1], want)
+            else:
+                # a list of comments is joined with newlinechar into one entry, unless all are empty
+                yield "one-entry-or-empty", S.ite(S.eq(want, ""), len(lines) == 1, len(lines) == 2 and S.eq(lines[-1], want))
+
+
+# ---------------------------------------------------------------------------------------------
+# predicates on (key, value) and the key-length scan
+# ---------------------------------------------------------------------------------------------
+
+IGNORE_KEYS = ("metadata", "validation", "values", "connectionoptions", "pattern", "projection", "points", "config")
+KEYVALUE_BLOCKS = ("metadata", "validation", "values", "connectionoptions")
+
+
+def _tables():
+    from mappyfile.tokens import OBJECT_LIST_KEYS, REPEATED_KEYS, COMPLEX_TYPES, COMPOSITE_NAMES, SINGLETON_COMPOSITE_NAMES
+    return dict(olk=sorted(OBJECT_LIST_KEYS), rep=tuple(REPEATED_KEYS), cx=sorted(COMPLEX_TYPES),
+                names=sorted(COMPOSITE_NAMES | SINGLETON_COMPOSITE_NAMES))
+
+
+def is_composite_val(v):
+    from pyvc.engine import MDict
+    if isinstance(v, MDict):
+        return "__type__" in v
+    return isinstance(v, dict) and "__type__" in v
+
+
+def hidden_container(attr, v):
+    return S.and_(isinstance(v, list) or isinstance(v, AbsColl), S.in_const_set(attr, _tables()["olk"]))
+
+
+def simple_key(attr, v):
+    return S.and_(S.not_(is_hidden_key(attr)), S.not_(S.in_const_set(attr, IGNORE_KEYS)),
+                  S.not_(hidden_container(attr, v)), not is_composite_val(v))
+
+
+VALUE_KINDS = ["str", "int", "list", "composite", "plaindict"]
+
+
+def mk_value(E, kind, name="val"):
+    if kind == "str":
+        return E.str(name)
+    if kind == "int":
+        return E.int(name)
+    if kind == "list":
+        return E.abslist(name)
+    if kind == "composite":
+        return E.absdict(name, entries=[("__type__", E.str(name + ".type"))], absent=("__comments__",))
+    if kind == "plaindict":
+        return E.absdict(name, entries=[], absent=("__type__", "__comments__"))
+    raise ValueError(kind)
+
+
+@register
+class IsComposite(Contract):
+    target = "mappyfile.pprint.PrettyPrinter.is_composite"
+    cases = VALUE_KINDS
+    modifies = ()
+
+    def build(self, E, case):
+        return (mk_pp(E), mk_value(E, case)), {}
+
+    def ensures(self, E, case, args, kwargs, out):
+        yield "result", out.kind == "return" and bool(out.value) == (case == "composite")
+
+    def at_call(self, E, pp, v):
+        return is_composite_val(v)
+
+
+@register
+class IsHiddenContainer(Contract):
+    target = "mappyfile.pprint.PrettyPrinter.is_hidden_container"
+    cases = VALUE_KINDS
+    modifies = ()
+
+    def build(self, E, case):
+        return (mk_pp(E), E.str("key"), mk_value(E, case)), {}
+
+    def ensures(self, E, case, args, kwargs, out):
+        pp, key, v = args
+        yield "result", out.kind == "return" and S.eq(S.truthy(out.value), hidden_container(key, v) if case == "list" else False)
+
+
+class _AbsList(AbsColl):
+    pass
+
+
+# an abstract list must look like a list to isinstance
+def _install_abs_isinstance():
+    from pyvc import models
+    orig = models.pytype_of
+
+    def pytype_of(v):
+        if isinstance(v, AbsColl) and v.info.get("pytype"):
+            return v.info["pytype"]
+        if isinstance(v, AbsColl):
+            return list
+        return orig(v)
+    models.pytype_of = pytype_of
+
+
+_install_abs_isinstance()
+
+
+class KeyLenLoop(LoopSpec):
+    elem_cases = VALUE_KINDS
+
+    def carried(self, E, L, coll):
+        return {"length": E.fresh(S.INT, "length")}
+
+    def inv(self, E, L):
+        yield "length>=0", L["length"] >= 0
+
+    def element(self, E, case, coll):
+        return (E.str("attr"), mk_value(E, case))
+
+    def step(self, E, pre, post, elem, case):
+        attr, v = elem
+        yield "monotone", post["length"] >= pre["length"]
+        yield "covers-simple-key", S.implies(simple_key(attr, v), post["length"] >= S.length(attr))
+        yield "is-some-key-length", S.or_(S.eq(post["length"], pre["length"]),
+                                          S.and_(simple_key(attr, v), S.eq(post["length"], S.length(attr))))
+
+    def after(self, E, L, coll):
+        length = L["length"]
+        # rule R-forall: every iteration establishes Q(x) := simple(x) => len(x.key) <= length and no
+        # iteration breaks it for another element (length is monotone) => Q holds for every element
+        add_fact(coll, lambda elem, length=length: S.implies(simple_key(elem[0], elem[1]), length >= S.length(elem[0])))
+
+
+@register
+class ComputeMaxKeyLength(Contract):
+    target = "mappyfile.pprint.PrettyPrinter.compute_max_key_length"
+    props = ("C16",)
+    modifies = ()
+    loops = {1: KeyLenLoop()}
+    doc = "result >= len(key) for every simple key of the object (loop rule R-forall), result >= 0"
+
+    def build(self, E, case):
+        return (mk_pp(E), E.absdict("composite", entries=[("__type__", E.str("type"))])), {}
+
+    def ensures(self, E, case, args, kwargs, out):
+        yield "returns-nonneg", out.kind == "return" and out.value >= 0
+
+    def at_call(self, E, pp, composite):
+        from pyvc.engine import MDict
+        mkl = E.fresh(S.INT, "mkl")
+        E.assume(mkl >= 0)
+        if isinstance(composite, MDict) and composite.tail is not None:
+            add_fact(composite.tail["items"],
+                     lambda elem, mkl=mkl: S.implies(simple_key(elem[0], elem[1]), mkl >= S.length(elem[0])))
+        elif isinstance(composite, MDict):
+            for k, v in composite.entries:
+                E.assume(S.implies(simple_key(k, v), mkl >= S.length(k)))
+        return mkl
+
+
+# ---------------------------------------------------------------------------------------------
+# block writers
+# ---------------------------------------------------------------------------------------------
+
+def quoted(pp, x):
+    q = pp.quoter.quote
+    return S.concat(q, S.to_str(x) if S.sort_of(x) is not None else x, q)
+
+
+class ProcessDictLoop(LoopSpec):
+    elem_cases = ["hidden", "pair"]
+
+    def carried(self, E, L, coll):
+        return {"lines": [Seg("process_dict.lines@pre")]}
+
+    def exit_state(self, E, L, coll):
+        d = coll.info["owner"]
+        return {"lines": list(L["lines"]) + [Seg("process_dict.body", d, L["level"], L["comments"], L["aligned_max_indent"])]}
+
+    def element(self, E, case, coll):
+        k = E.str("k")
+        v = E.str("v")
+        if case == "hidden":
+            E.assume(is_hidden_key(k))
+        else:
+            E.assume(S.not_(is_hidden_key(k)))
+        return (k, v)
+
+    def step(self, E, pre, post, elem, case):
+        k, v = elem
+        pp = post["self"]
+        if case == "hidden":
+            yield "hidden-key-skipped", seq_eq(post["lines"], pre["lines"])
+            return
+        amax = post["aligned_max_indent"]
+        qk, qv = quoted(pp, k), quoted(pp, v)
+        want = S.concat(format_line_spec(ws(pp, post["level"] + 2), qk, qv, amax), comment_suffix(E, post["comments"], k))
+        yield "one-line-per-pair", len(post["lines"]) == len(pre["lines"]) + 1 and seq_eq(post["lines"][:-1], pre["lines"])
+        if len(post["lines"]) == len(pre["lines"]) + 1:
+            yield "pair-line", S.eq(post["lines"][-1], want)
+        # C16: key and value are separated by at least one blank (the column lies past the quoted key)
+        col = S.ite(S.eq(amax, 0), S.length(qk) + 1, amax)
+        yield "separator-nonempty", col > S.length(qk)
+
+
+def comment_suffix(E, comments, key):
+    from pyvc.engine import MDict
+    if isinstance(comments, AbsComments):
+        return comments.suffix(E, key)
+    if isinstance(comments, MDict) and not comments.entries and comments.tail is None:
+        return ""
+    raise NotImplementedError("comment_suffix for " + repr(comments))
+
+
+@register
+class ProcessDict(Contract):
+    target = "mappyfile.pprint.PrettyPrinter.process_dict"
+    cases = ["abs-comments", "no-comments"]
+    props = ("C16", "C03", "C14")
+    modifies = ()
+    loops = {1: ProcessDictLoop()}
+
+    def build(self, E, case):
+        d = E.absdict("d", entries=[], ci=True)
+        comments = AbsComments() if case == "abs-comments" else E.odict(entries=())
+        return (mk_pp(E), d, E.int("level"), comments), {}
+
+    def ensures(self, E, case, args, kwargs, out):
+        ok = out.kind == "return" and isinstance(out.value, list)
+        yield "returns-list", ok
+        if ok:
+            yield "only-the-pairs", len(out.value) == 1 and isinstance(out.value[0], Seg) and out.value[0].key[0] == "process_dict.body"
+
+    def at_call(self, E, pp, d, level, comments):
+        return [Seg("process_dict", d, level, comments)]
+
+
+def type_comment_lines(E, pp, level, comments):
+    """[] or [one entry holding the __type__ comment line(s)]"""
+    from pyvc.engine import MDict
+    if isinstance(comments, MDict) and comments.tail is None:
+        if "__type__" not in comments:
+            return []
+        return [composite_comment_spec(pp, level, comments["__type__"])]
+    raise NotImplementedError
+
+
+def _mk_comments(E, case):
+    if case == "nocomments":
+        return None
+    c = E.str("tc")
+    E.assume(c != "")
+    return E.odict(entries=[("__type__", c)])
+
+
+@register
+class ProcessKeyDict(Contract):
+    target = "mappyfile.pprint.PrettyPrinter.process_key_dict"
+    cases = ["nocomments", "typecomment"]
+    props = ("C16", "C03", "C14")
+    modifies = ()
+
+    def build(self, E, case):
+        entries = []
+        cm = _mk_comments(E, case)
+        if cm is not None:
+            entries.append(("__comments__", cm))
+        d = E.absdict("d", entries=entries, ci=True, absent=() if cm is not None else ("__comments__",))
+        return (mk_pp(E), E.str("key"), d, E.int("level")), {}
+
+    def ensures(self, E, case, args, kwargs, out):
+        pp, key, d, level = args
+        ok = out.kind == "return" and isinstance(out.value, list)
+        yield "returns-list", ok
+        if not ok:
+            return
+        lines = out.value
+        n = 3 if case == "nocomments" else 4
+        yield "shape", len(lines) == n
+        if len(lines) != n:
+            return
+        if case == "typecomment":
+            yield "type-comment-first", S.eq(lines[0], S.concat(ws(pp, level), d["__comments__"]["__type__"]))
+        yield "opener", S.eq(lines[-3], S.concat(ws(pp, level + 1), S.upper(key)))
+        yield "body-is-process_dict", isinstance(lines[-2], Seg) and lines[-2].key[0] == "process_dict" and lines[-2].key[1] is d \
+            and S.truthy(S.eq(lines[-2].key[2], level)) is True
+        yield "end", S.eq(lines[-1], end_line(pp, level + 1, key))
+
+    def at_call(self, E, pp, key, d, level):
+        return [Seg("process_key_dict", key, d, level)]
+
+
+class ConfigLoop(LoopSpec):
+    def carried(self, E, L, coll):
+        return {"lines": [Seg("config.lines@pre")]}
+
+    def exit_state(self, E, L, coll):
+        return {"lines": list(L["lines"]) + [Seg("process_config_dict.body", coll.info["owner"], L["level"])]}
+
+    def element(self, E, case, coll):
+        return (E.str("k"), E.str("v"))
+
+    def step(self, E, pre, post, elem, case):
+        k, v = elem
+        pp = post["self"]
+        want = S.concat(ws(pp, post["level"] + 1), "CONFIG ", quoted(pp, S.upper(k)), " ", quoted(pp, v))
+        ok = len(post["lines"]) == len(pre["lines"]) + 1 and seq_eq(post["lines"][:-1], pre["lines"])
+        yield "one-line-per-item", ok
+        if ok:
+            yield "config-line", S.eq(post["lines"][-1], want)
+
+
+@register
+class ProcessConfigDict(Contract):
+    target = "mappyfile.pprint.PrettyPrinter.process_config_dict"
+    props = ("C16", "C03")
+    modifies = ()
+    loops = {1: ConfigLoop()}
+
+    def build(self, E, case):
+        return (mk_pp(E), E.absdict("d", entries=[], ci=True), E.int("level")), {}
+
+    def ensures(self, E, case, args, kwargs, out):
+        ok = out.kind == "return" and isinstance(out.value, list)
+        yield "returns-list", ok
+        if ok:
+            yield "only-config-lines", len(out.value) == 1 and isinstance(out.value[0], Seg)
+
+    def at_call(self, E, pp, d, level):
+        return [Seg("process_config_dict", d, level)]
+
+
+class RepeatedLoop(LoopSpec):
+    def carried(self, E, L, coll):
+        return {"lines": [Seg("repeated.lines@pre")]}
+
+    def exit_state(self, E, L, coll):
+        return {"lines": list(L["lines"]) + [Seg("process_repeated_list.body", coll, L["key"], L["level"], L["aligned_max_indent"])]}
+
+    def element(self, E, case, coll):
+        return E.str("v")
+
+    def step(self, E, pre, post, elem, case):
+        pp = post["self"]
+        key = post["key"]
+        want = format_line_spec(ws(pp, post["level"] + 1), S.upper(key), quoted(pp, elem), post["aligned_max_indent"])
+        ok = len(post["lines"]) == len(pre["lines"]) + 1 and seq_eq(post["lines"][:-1], pre["lines"])
+        yield "one-line-per-element", ok
+        if ok:
+            yield "repeated-line", S.eq(post["lines"][-1], want)
+
+
+@register
+class ProcessRepeatedList(Contract):
+    target = "mappyfile.pprint.PrettyPrinter.process_repeated_list"
+    props = ("C16", "C03")
+    modifies = ()
+    loops = {1: RepeatedLoop()}
+
+    def build(self, E, case):
+        return (mk_pp(E), E.str("key"), E.abslist("lst"), E.int("level"), E.int("amax")), {}
+
+    def ensures(self, E, case, args, kwargs, out):
+        ok = out.kind == "return" and isinstance(out.value, list)
+        yield "returns-list", ok
+        if ok:
+            yield "only-element-lines", len(out.value) == 1 and isinstance(out.value[0], Seg)
+
+    def at_call(self, E, pp, key, lst, level, aligned_max_indent=1):
+        return [Seg("process_repeated_list", key, lst, level, aligned_max_indent)]
+
+
+class ProjectionLoop(LoopSpec):
+    def carried(self, E, L, coll):
+        return {"lines": [Seg("projection.lines@pre")]}
+
+    def exit_state(self, E, L, coll):
+        return {"lines": list(L["lines"]) + [Seg("process_projection.body", coll, L["level"])]}
+
+    def element(self, E, case, coll):
+        return E.str("v")
+
+    def step(self, E, pre, post, elem, case):
+        pp = post["self"]
+        want = S.concat(ws(pp, post["level"] + 2), quoted(pp, elem))
+        ok = len(post["lines"]) == len(pre["lines"]) + 1 and seq_eq(post["lines"][:-1], pre["lines"])
+        yield "one-line-per-string", ok
+        if ok:
+            yield "projection-line", S.eq(post["lines"][-1], want)
+
+
+@register
+class ProcessProjection(Contract):
+    target = "mappyfile.pprint.PrettyPrinter.process_projection"
+    cases = ["string", "auto", "list1-nonauto", "list2", "abslist", "abslist+comment", "string+comment"]
+    props = ("C16", "C03", "C14")
+    modifies = ()
+    loops = {1: ProjectionLoop()}
+    loop_cases = {1: ["abslist", "abslist+comment"]}
+    doc = "abslist: a list of unknown length that is not the one-element AUTO list (len != 1 is stated as the case's assumption by using an abstract list whose len() is not 1)"
+
+    def build(self, E, case):
+        pc = ""
+        kind = case.split("+")[0]
+        if case.endswith("+comment"):
+            pc = E.str("pc")
+            E.assume(pc != "")
+        if kind == "string":
+            lst = E.str("proj")
+        elif kind == "auto":
+            a = E.str("a")
+            E.assume(S.eq(S.upper(a), "AUTO"))
+            lst = [a]
+        elif kind == "list1-nonauto":
+            a = E.str("a")
+            E.assume(S.not_(S.eq(S.upper(a), "AUTO")))
+            lst = [a]
+        elif kind == "list2":
+            lst = [E.str("a"), E.str("b")]
+        else:
+            lst = E.abslist("lst", length=E.int("n"))
+            E.assume(S.and_(lst.info["length"] >= 0, lst.info["length"] != 1))
+        return (mk_pp(E), "projection", lst, E.int("level"), pc), {}
+
+    def ensures(self, E, case, args, kwargs, out):
+        pp, key, lst, level, pc = args
+        ok = out.kind == "return" and isinstance(out.value, list)
+        yield "returns-list", ok
+        if not ok:
+            return
+        lines = out.value
+        yield "opener", len(lines) >= 2 and S.eq(lines[0], S.concat(ws(pp, level + 1), "PROJECTION"))
+        yield "end", len(lines) >= 2 and S.eq(lines[-1], end_line(pp, level + 1, key))
+        body = lines[1:-1]
+        w2 = ws(pp, level + 2)
+        if case.endswith("+comment"):
+            yield "comment-line", len(body) >= 1 and S.eq(body[0], S.concat(w2, S.strip(pc)))
+            body = body[1:]
+        kind = case.split("+")[0]
+        if kind == "string":
+            yield "single-string", len(body) == 1 and S.eq(body[0], S.concat(w2, quoted(pp, lst)))
+        elif kind == "auto":
+            yield "auto-bare", len(body) == 1 and S.eq(body[0], S.concat(w2, "AUTO"))
+        elif kind in ("list1-nonauto", "list2"):
+            yield "one-line-per-string", len(body) == len(lst) and S.and_(*[S.eq(b, S.concat(w2, quoted(pp, x))) for b, x in zip(body, lst)])
+        else:
+            yield "body-is-loop", len(body) == 1 and isinstance(body[0], Seg) and body[0].key[0] == "process_projection.body"
+
+    def at_call(self, E, pp, key, lst, level, projection_comments):
+        return [Seg("process_projection", key, lst, level, projection_comments)]
